@@ -221,7 +221,7 @@ impl Property for C15 {
 		"C15"
 	}
 	fn rule(&self) -> &'static str {
-		"each case generates a listener (position, unit-quaternion orientation), a spatial track (emitter coincident with the listener, on a listener axis, inside the distance range, or anywhere up to 1e5 units away; distances min < max; attenuation easing or none; strength in [0,1]) and a DC input (equal or unequal stereo), renders the steady-state output frame through the manager and checks it against the documented model level = attenuation(distance) x ear gains (f64, tolerance scaled with coordinate magnitude) and one of the relations between renders from fresh managers: attenuation 1 inside the minimum distance, 0 at or beyond the maximum, non-increasing along a ray; ear gains within [1-strength, 1]; emitter on the listener's right gives right >= left; mirroring the emitter through the listener's median plane swaps the channels; a rigid motion of listener and emitter together leaves the output unchanged; strength 0 passes stereo unpanned; a dropped listener (or one whose slot has been reused) silences the track exactly from the next callback; a FromListenerDistance parameter (on the track and on a non-spatial child) equals the mapping of the true distance; position / orientation tweens end at the static result; nested spatial tracks use their own listener and position. Non-trivial = emitter off the listener's axes and strictly between min and max; distinct = distinct decoded choices."
+		"each case generates a listener (position, unit-quaternion orientation), a spatial track (emitter coincident with the listener, on a listener axis, inside the distance range, or anywhere up to 1e5 units away; distances min < max; attenuation easing or none; strength in [0,1]) and a DC input (equal or unequal stereo), renders the steady-state output frame through the manager and checks it against the documented model level = attenuation(distance) x ear gains (f64, tolerance scaled with coordinate magnitude) and one of the relations between renders from fresh managers: attenuation 1 inside the minimum distance, 0 at or beyond the maximum, non-increasing along a ray; ear gains within [1-strength, 1]; emitter on the listener's right gives right >= left; mirroring the emitter through the listener's median plane swaps the channels; a rigid motion of listener and emitter together leaves the output unchanged; strength 0 passes stereo unpanned; a dropped listener (or one whose slot has been reused) silences the track exactly from the next callback; a FromListenerDistance parameter (on the track, on a non-spatial child and on a non-spatial grandchild) equals the mapping of the true distance; position / orientation tweens end at the static result; nested spatial tracks use their own listener and position. Non-trivial = emitter off the listener's axes and strictly between min and max; distinct = distinct decoded choices."
 	}
 	fn assumptions(&self) -> Vec<String> {
 		vec![
@@ -376,13 +376,17 @@ impl Property for C15 {
 				// a plain child track inherits the spatial track's position and listener
 				let mut cb = TrackBuilder::new();
 				let child_log = cb.add_effect(ProbeEffectBuilder::new(ProbeKind::Pass).param(Value::FromListenerDistance(mapping)));
-				let _child = track.add_sub_track(cb).map_err(|_| Failure::simple("setup", "child"))?;
+				let mut child = track.add_sub_track(cb).map_err(|_| Failure::simple("setup", "child"))?;
+				// ... and so does a plain track below that one
+				let mut gb = TrackBuilder::new();
+				let grandchild_log = gb.add_effect(ProbeEffectBuilder::new(ProbeKind::Pass).param(Value::FromListenerDistance(mapping)));
+				let _grandchild = child.add_sub_track(gb).map_err(|_| Failure::simple("setup", "grandchild"))?;
 				last_frame(&mut mgr, g.ibs)?;
 				let d = (v(g.listener_pos) - v(g.emitter)).length() as f64;
 				let want = (((d - in0) / (in1 - in0)).clamp(0.0, 1.0)) * 1000.0;
 				let m = g.listener_pos.iter().chain(g.emitter.iter()).fold(1.0f32, |m, x| m.max(x.abs())) as f64;
 				let tolp = 1e-3 + 1000.0 / (in1 - in0) * m * 4e-7;
-				for (name, l) in [("spatial track", &log), ("child of the spatial track", &child_log)] {
+				for (name, l) in [("spatial track", &log), ("child of the spatial track", &child_log), ("grandchild of the spatial track", &grandchild_log)] {
 					let got = l.take_calls().last().map(|r| r.param).unwrap_or(f64::NAN);
 					ensure!((got - want).abs() <= tolp, "parameter-follows-listener-distance", "FromListenerDistance parameter on the {name} = {got}, the distance {d} maps to {want}; {g:?}");
 				}
